@@ -3,7 +3,6 @@ package main
 import (
 	"fmt"
 	"go/types"
-	"unicode/utf8"
 
 	"golang.org/x/tools/go/ssa"
 )
@@ -39,11 +38,7 @@ func (e *Engine) harnessAPI2(name string, args []Value, fn *ssa.Function) (Value
 		e.addPC(e.tt.Cmp("bvuge", n.bl, e.c64(2048)))
 		return p, true
 	case "vUTF8":
-		r := args[0].(StrV).r
-		if b, ok := ropeConcrete(r); ok {
-			return e.tt.Bool(utf8.Valid(b)), true
-		}
-		return e.tt.UF("utf8valid", 0, e.intern("rope", e.ropeKey(r))), true
+		return e.utf8ValidOf(args[0].(StrV).r), true
 	case "vRand":
 		return Iface{typ: e.fake("rand"), val: OpaqueV{kind: "rand"}}, true
 	case "vEdVerdict":
